@@ -1168,6 +1168,7 @@ def run_c03(ctx):
     structured_modification_stream(ctx, 150 if q else 4000)
     compat_twins_stream(ctx, 60 if q else 1500)
     erroring_comparison_stream(ctx, 60 if q else 1500)
+    nonfinite_entry_stream(ctx, 80 if q else 2000)
     run_stage_batch(ctx, stage_batch)
     run_ladder_batch(ctx, ladder_batch)
     ctx.rule = ("meshes as in C02 with exactly one single-site modification on one side (move a point along one axis by 16..1e6 "
@@ -1242,6 +1243,61 @@ def erroring_comparison_stream(ctx, n):
         if res["bool"]:
             ctx.violation("E4", f"comparison PASSES although a deviating field's comparison ended in an error ({kind}; statuses "
                                 f"{res['fields']})", canon, impl=res)
+        ctx.traces_validated += 1
+
+
+def nonfinite_entry_stream(ctx, n):
+    """one entry of a floating-point field replaced by +inf or -inf on one side (a result that blew up), or +inf on one side
+    against -inf on the other: an infinite deviation is beyond every tolerance, the comparison must fail — with the default
+    tolerances and with user-given relative / absolute tolerances, in both roles, with and without reordering"""
+    from fieldcompare.predicates import DefaultEquality, FuzzyEquality
+    rng = ctx.rng
+    for it in range(n):
+        M = G.add_fields(rng, G.gen_mesh(rng, max_cells=5), kinds=("scalar", "vector"))
+        npts = len(M["pts"])
+        i = rng.randrange(npts)
+        where = rng.choice(["scalar", "vector"])
+        base = np.array([float(rng.randint(-64, 64)) / 8 for _ in range(npts)]) if where == "scalar" else \
+            np.array([[float(rng.randint(-64, 64)) / 8 for _ in range(3)] for _ in range(npts)])
+        other = base.copy()
+        kind = rng.choice(["finite_vs_inf", "finite_vs_inf", "finite_vs_minus_inf", "inf_vs_minus_inf"])
+        idx = (i,) if where == "scalar" else (i, rng.randrange(3))
+        if kind == "inf_vs_minus_inf":
+            base[idx], other[idx] = np.inf, -np.inf
+        else:
+            other[idx] = np.inf if kind == "finite_vs_inf" else -np.inf
+        pred = rng.choice(["default", "default_rel", "fuzzy_rel", "fuzzy_abs", "huge_rel"])
+        sel = {"default": None,
+               "default_rel": lambda _s, _r: DefaultEquality(rel_tol=1e-6, abs_tol=0.0),
+               "fuzzy_rel": lambda _s, _r: FuzzyEquality(rel_tol=1e-9, abs_tol=0.0),
+               "fuzzy_abs": lambda _s, _r: FuzzyEquality(rel_tol=0.0, abs_tol=1e-3),
+               "huge_rel": lambda _s, _r: FuzzyEquality(rel_tol=0.5, abs_tol=1e6)}[pred]
+        role = rng.choice(["mod_is_source", "mod_is_reference"])
+        reorder = rng.random() < 0.5
+        N = G.copy_mesh(M)
+        extra_n = {"blown": other}
+        if reorder:
+            N, perm, _ = G.relabel(rng, N)
+            extra_n = {"blown": other[perm]}
+        canon = {"kind": "nonfinite_entry", "how": kind, "field": where, "entry": list(idx), "predicate": pred, "role": role,
+                 "reordered": reorder, "mesh": json_mesh(M)}
+        try:
+            with quiet():
+                warnings.simplefilter("ignore")
+                fm, fn = G.to_fieldcompare(M, extra_point={"blown": base}), G.to_fieldcompare(N, extra_point=extra_n)
+                A, B = (fn, fm) if role == "mod_is_source" else (fm, fn)
+                res = compare_impl(A, B, predicate_selector=sel)
+        except Exception as e:  # noqa: BLE001
+            if "duplicate" in str(e):
+                continue
+            ctx.case(canon, True)
+            ctx.violation("E4", f"comparison raised {type(e).__name__}: {e} instead of failing", canon)
+            continue
+        ctx.case(canon, True, sample={"case": {k: canon[k] for k in ("how", "field", "predicate", "role", "reordered")}, "impl": res})
+        ctx.count(f"c03:nonfinite entry:{kind}:{pred}")
+        if res["bool"]:
+            ctx.violation("E4", f"comparison PASSES although one entry of a field is infinite on one side ({kind}, predicate {pred})",
+                          canon, impl=res)
         ctx.traces_validated += 1
 
 
